@@ -62,6 +62,7 @@ package types
 //@ serves C16 C19 C20
 //@ ensures[ok]  (err == nil) <==> (validHex(trimPrefix(remoteTokenHex, "0x")) && len(hexdec(trimPrefix(remoteTokenHex, "0x"))) <= 32)
 //@ ensures[pad] err == nil ==> out == leftPad32(hexdec(trimPrefix(remoteTokenHex, "0x")))
+//@ local i int
 //@ loop 0 invariant[zero] i >= 0 && forall p: uint64 :: p < 32 ==> mem(makeslice, p) == 0
 
 // ======================================================================= genesis validation (C17)
@@ -81,7 +82,7 @@ package types
 //@ specfun vkP(j: int): bytes := pkey(gs.TokenPairList, j)
 //@ specfun vkN(j: int): bytes := nkey(gs.UsedNoncesList, j)
 //@ specfun vkM(j: int): bytes := mkey(gs.TokenMessengerList, j)
-//@ macro seenInv(m, vk, n)  := rangeindex >= -1 && rangeindex < n && forall j: int :: 0 <= j && j <= rangeindex ==> mapHas(m, vk(j))
+//@ macro seenInv(m, vk, n)  := loopidx >= 0 && loopidx <= n && forall j: int :: 0 <= j && j < loopidx ==> mapHas(m, vk(j))
 //@ macro distinctTo(vk, hi) := forall j: int :: forall k: int :: 0 <= j && j < k && k <= hi ==> vk(j) != vk(k)
 
 //@ func (GenesisState) Validate() (err)
@@ -92,27 +93,37 @@ package types
 //@ ensures[C17.nodup.tokenPairs] err == nil && revealAll(vkP) ==> forall j: int :: forall k: int :: 0 <= j && j < k && k < len(gs.TokenPairList) ==> pkey(gs.TokenPairList, j) != pkey(gs.TokenPairList, k)
 //@ ensures[C17.nodup.usedNonces] err == nil && revealAll(vkN) ==> forall j: int :: forall k: int :: 0 <= j && j < k && k < len(gs.UsedNoncesList) ==> nkey(gs.UsedNoncesList, j) != nkey(gs.UsedNoncesList, k)
 //@ ensures[C17.nodup.messengers] err == nil && revealAll(vkM) ==> forall j: int :: forall k: int :: 0 <= j && j < k && k < len(gs.TokenMessengerList) ==> mkey(gs.TokenMessengerList, j) != mkey(gs.TokenMessengerList, k)
-//@ assert@AttesterKey[key]             reveal(vkA(rangeindex + 1))
-//@ assert@PerMessageBurnLimitKey[key]  reveal(vkL(rangeindex + 1))
-//@ assert@TokenPairKey[key]            reveal(vkP(rangeindex + 1))
-//@ assert@UsedNonceKey[key]            reveal(vkN(rangeindex + 1))
-//@ assert@RemoteTokenMessengerKey[key] reveal(vkM(rangeindex + 1))
+//@ assert@AttesterKey[key]             reveal(vkA(loopidx))
+//@ assert@PerMessageBurnLimitKey[key]  reveal(vkL(loopidx))
+//@ assert@TokenPairKey[key]            reveal(vkP(loopidx))
+//@ assert@UsedNonceKey[key]            reveal(vkN(loopidx))
+//@ assert@RemoteTokenMessengerKey[key] reveal(vkM(loopidx))
+//@ loop 0 over AttesterList
+//@ loop 1 over PerMessageBurnLimitList
+//@ loop 2 over TokenPairList
+//@ loop 3 over UsedNoncesList
+//@ loop 4 over TokenMessengerList
+//@ local attesterIndexMap map[string]struct{} #0
+//@ local perMessageBurnLimitIndexMap map[string]struct{} #1
+//@ local tokenPairIndexMap map[string]struct{} #2
+//@ local usedNonceIndexMap map[string]struct{} #3
+//@ local tokenMessengerIndexMap map[string]struct{} #4
 //@ loop 0 invariant[seen]     seenInv(attesterIndexMap, vkA, len(gs.AttesterList))
-//@ loop 0 invariant[distinct] distinctTo(vkA, rangeindex)
+//@ loop 0 invariant[distinct] distinctTo(vkA, loopidx - 1)
 //@ loop 1 invariant[seen]     seenInv(perMessageBurnLimitIndexMap, vkL, len(gs.PerMessageBurnLimitList))
-//@ loop 1 invariant[distinct] distinctTo(vkL, rangeindex)
+//@ loop 1 invariant[distinct] distinctTo(vkL, loopidx - 1)
 //@ loop 1 invariant[keep0]    distinctTo(vkA, len(gs.AttesterList) - 1)
 //@ loop 2 invariant[seen]     seenInv(tokenPairIndexMap, vkP, len(gs.TokenPairList))
-//@ loop 2 invariant[distinct] distinctTo(vkP, rangeindex)
+//@ loop 2 invariant[distinct] distinctTo(vkP, loopidx - 1)
 //@ loop 2 invariant[keep0]    distinctTo(vkA, len(gs.AttesterList) - 1)
 //@ loop 2 invariant[keep1]    distinctTo(vkL, len(gs.PerMessageBurnLimitList) - 1)
 //@ loop 3 invariant[seen]     seenInv(usedNonceIndexMap, vkN, len(gs.UsedNoncesList))
-//@ loop 3 invariant[distinct] distinctTo(vkN, rangeindex)
+//@ loop 3 invariant[distinct] distinctTo(vkN, loopidx - 1)
 //@ loop 3 invariant[keep0]    distinctTo(vkA, len(gs.AttesterList) - 1)
 //@ loop 3 invariant[keep1]    distinctTo(vkL, len(gs.PerMessageBurnLimitList) - 1)
 //@ loop 3 invariant[keep2]    distinctTo(vkP, len(gs.TokenPairList) - 1)
 //@ loop 4 invariant[seen]     seenInv(tokenMessengerIndexMap, vkM, len(gs.TokenMessengerList))
-//@ loop 4 invariant[distinct] distinctTo(vkM, rangeindex)
+//@ loop 4 invariant[distinct] distinctTo(vkM, loopidx - 1)
 //@ loop 4 invariant[keep0]    distinctTo(vkA, len(gs.AttesterList) - 1)
 //@ loop 4 invariant[keep1]    distinctTo(vkL, len(gs.PerMessageBurnLimitList) - 1)
 //@ loop 4 invariant[keep2]    distinctTo(vkP, len(gs.TokenPairList) - 1)
